@@ -25,7 +25,10 @@ SetToSeq(S) == IF S = {} THEN <<>> ELSE LET x == CHOOSE x \in S : TRUE IN <<x>> 
 
 Init == dir = {Simple(i) : i \in Repos} /\ lost = {} /\ hist = <<>>
 
-Loadable(sh) == sh.repos # <<>>      \* a compound shard without repositories cannot be opened
+\* A compound shard without repositories (everything merged was tombstoned or empty) cannot be
+\* opened; merge refuses it, explode removes it.  Such shards are indistinguishable garbage: the
+\* directory (a set) holds at most one of them, Trace_MergeContent counts the real files.
+Loadable(sh) == sh.repos # <<>>
 
 Compounds == {c \in dir : c.compound}
 Ops == [op : {"merge"}, shards : {S \in SUBSET dir : S # {} /\ \A sh \in S : Loadable(sh)}]
